@@ -59,7 +59,7 @@ func runC05(c *Ctx, r *Report, tier string) {
 	// ---- CLEAR
 	cn := c.fname(cd)
 	pdLit := "Option.preventDefault(P0)"
-	for _, b := range cd.Blocks {
+	for _, b := range c.blocks(cd) {
 		for _, in := range b.Instrs {
 			switch x := in.(type) {
 			case ssa.CallInstruction:
@@ -82,11 +82,18 @@ func runC05(c *Ctx, r *Report, tier string) {
 		t := c.term(arg)
 		_ = t
 	}
-	var used *ssa.Phi
-	for _, b := range cd.Blocks {
+	// the list whose elements are handed to setDefault
+	var used ssa.Value
+	var usedAt ssa.Instruction
+	for _, b := range c.blocks(cd) {
 		for _, in := range b.Instrs {
-			if p, ok := in.(*ssa.Phi); ok && relType(c, p.Type()) == "[]string" {
-				used = p
+			if ia, ok := in.(*ssa.IndexAddr); ok && relType(c, ia.X.Type()) == "[]string" {
+				if used == nil || c.resolve(ia.X) == c.resolve(used) {
+					used, usedAt = ia.X, in
+				} else {
+					used = nil
+					r.Fail("CLEAR", cn, "defaults applied", c.ipos(in), "more than one []string is iterated in clearDefault")
+				}
 			}
 		}
 	}
@@ -95,22 +102,19 @@ func runC05(c *Ctx, r *Report, tier string) {
 	} else {
 		var origins []string
 		okAll := true
-		for i, e := range used.Edges {
-			t := c.term(e)
-			pred := used.Block().Preds[i]
+		envOK := litHas(true, "call:os.LookupEnv(call:(*Option).EnvKeyWithNamespace(P0))#1")
+		for _, o := range c.originsOf(used, usedAt) {
+			t := o.Term
 			switch {
 			case t == "Option.Default(P0)":
 				origins = append(origins, "Option.Default")
 			case strings.HasPrefix(t, "call:strings.Split(call:os.LookupEnv(call:(*Option).EnvKeyWithNamespace(P0))#0, Option.EnvDefaultDelim(P0))"):
 				origins = append(origins, "Split(env, EnvDefaultDelim)")
-				_, ok := c.Requires(cd, func(x ssa.Instruction) bool { return x == pred.Instrs[len(pred.Instrs)-1] }, litHas(true, "call:os.LookupEnv(call:(*Option).EnvKeyWithNamespace(P0))#1"), nil)
-				okAll = okAll && ok
+				okAll = okAll && c.reqAt(cd, o, envOK)
 			case strings.HasPrefix(t, "slice(new:[1]string"):
-				es := sliceLitElems(e)
-				if len(es) == 1 && c.term(es[0]) == "call:os.LookupEnv(call:(*Option).EnvKeyWithNamespace(P0))#0" {
+				if len(o.Elems) == 1 && o.Elems[0] == "call:os.LookupEnv(call:(*Option).EnvKeyWithNamespace(P0))#0" {
 					origins = append(origins, "[env]")
-					_, ok := c.Requires(cd, func(x ssa.Instruction) bool { return x == pred.Instrs[len(pred.Instrs)-1] }, litHas(true, "call:os.LookupEnv(call:(*Option).EnvKeyWithNamespace(P0))#1"), nil)
-					okAll = okAll && ok
+					okAll = okAll && c.reqAt(cd, o, envOK)
 				} else {
 					okAll = false
 					origins = append(origins, "?"+trunc(t, 60))
@@ -121,20 +125,22 @@ func runC05(c *Ctx, r *Report, tier string) {
 			}
 		}
 		origins = dedupSorted(origins)
-		r.Check(okAll && len(origins) == 3, "CLEAR", cn, "origins of the defaults applied", c.ipos(used), "{"+strings.Join(origins, ", ")+"}; env origins only when LookupEnv reported the variable set", "defaults may originate from {"+strings.Join(origins, ", ")+"} (env REQ(ok)="+fmt.Sprint(okAll)+")")
+		r.Check(okAll && len(origins) == 3, "CLEAR", cn, "origins of the defaults applied", c.ipos(usedAt), "{"+strings.Join(origins, ", ")+"}; env origins only when LookupEnv reported the variable set", "defaults may originate from {"+strings.Join(origins, ", ")+"} (env REQ(ok)="+fmt.Sprint(okAll)+")")
 		// the setDefault loop iterates exactly this list
 		okLoop := false
 		for _, in := range c.instrs(cd, c.isCallTo("(*Option).setDefault")) {
-			for _, b := range cd.Blocks {
-				for _, in2 := range b.Instrs {
-					if ia, ok := in2.(*ssa.IndexAddr); ok && c.resolve(ia.X) == ssa.Value(used) {
-						okLoop = true
+			if al, ok := in.(*ssa.Call).Call.Args[1].(*ssa.Alloc); ok {
+				stores, _ := c.cellStores(al)
+				for _, st := range stores {
+					if u, ok := st.Val.(*ssa.UnOp); ok {
+						if ia, ok := u.X.(*ssa.IndexAddr); ok && c.resolve(ia.X) == c.resolve(used) {
+							okLoop = true
+						}
 					}
 				}
 			}
-			_ = in
 		}
-		r.Check(okLoop, "CLEAR", cn, "setDefault ranges over the merged list", c.ipos(used), "the applied values are the elements of the merged list", "setDefault does not iterate the merged default list")
+		r.Check(okLoop, "CLEAR", cn, "setDefault ranges over the merged list", c.ipos(usedAt), "the applied values are the elements of the merged list", "setDefault does not iterate the merged default list")
 	}
 	for _, in := range c.instrs(cd, c.isCallTo("(*Option).setDefault")) {
 		c.mptRule(r, "CLEAR", cd, in, "value emptied before defaults are applied", c.isCallTo("(*Option).empty"), "call empty()", nil)
@@ -188,7 +194,7 @@ func runC05(c *Ctx, r *Report, tier string) {
 
 	// ---- INI
 	in_ := c.fname(ip)
-	iloops := loopsOf(ip)
+	iloops := c.loopsDeep(ip)
 	setters := c.instrs(ip, c.isCallTo("(*Option).Set", "(*Option).setDefault"))
 	var entryLoop *Loop
 	for _, s := range setters {
@@ -259,7 +265,7 @@ func runC05(c *Ctx, r *Report, tier string) {
 			continue
 		}
 		nWalk := 0
-		for _, b := range fn.Blocks {
+		for _, b := range c.blocks(fn) {
 			for _, in := range b.Instrs {
 				p, ok := in.(*ssa.Phi)
 				if !ok || typeName(p.Type()) != "Group" {
@@ -277,7 +283,7 @@ func runC05(c *Ctx, r *Report, tier string) {
 		r.Check(nWalk >= 2, "ENVKEY", name, "walks found", c.pos(fn.Pos()), "delimiter walk and namespace walk", fmt.Sprintf("%d walks", nWalk))
 		// concatenation shape
 		okCat := false
-		for _, b := range fn.Blocks {
+		for _, b := range c.blocks(fn) {
 			for _, in := range b.Instrs {
 				if bo, ok := in.(*ssa.BinOp); ok && bo.Op.String() == "+" {
 					t := c.term(bo)
